@@ -108,6 +108,10 @@ pub enum Cheat {
     NvfSkew,
     /// Changes the claimed output y in the public input after proving (statement splice).
     Splice,
+    /// Proves honestly under a configuration that violates one declared bound (FRI step above 4,
+    /// blow-up exponent 0, more than 48 queries, fewer than 20 PoW bits, 16 layers, last-layer
+    /// bound 2^16): everything is self-consistent, only configuration validation stops it.
+    BadShape { kind: String },
     /// log_n_cosets declared as `value` (0, >16, 2^64, p-k) with dependent numbers re-declared
     /// consistently modulo p.
     BlowupModP { row: usize, value_hex: String },
@@ -222,7 +226,59 @@ pub fn toy_public_input(log_trace: u32, x0: Felt, y: Felt) -> PublicInput {
 
 // ---- the prover ------------------------------------------------------------------------------
 
+pub const BAD_SHAPES_QUICK: [&str; 8] = ["step5", "step6", "step8", "blowup0", "queries49", "queries64", "powbits19", "step5-many-queries"];
+pub const BAD_SHAPES_THOROUGH: [&str; 3] = ["layers16", "lastbound16", "step12"];
+
+fn bad_shape(base: &ToyParams, kind: &str) -> ToyParams {
+    let mut p = base.clone();
+    let one_step = |p: &mut ToyParams, s: u32| {
+        p.log_trace = p.log_trace.max(s);
+        p.steps = vec![0, s];
+        p.log_last = p.log_trace - s;
+    };
+    match kind {
+        "step5" => one_step(&mut p, 5),
+        "step6" => one_step(&mut p, 6),
+        "step8" => one_step(&mut p, 8),
+        "step12" => {
+            one_step(&mut p, 12);
+            p.n_friendly = 0;
+        }
+        "step5-many-queries" => {
+            one_step(&mut p, 5);
+            p.n_queries = 48;
+        }
+        "blowup0" => p.log_blowup = 0,
+        "queries49" => p.n_queries = 49,
+        "queries64" => p.n_queries = 64,
+        "powbits19" => p.pow_bits = 19,
+        "layers16" => {
+            p.log_trace = 15;
+            p.steps = std::iter::once(0).chain(std::iter::repeat(1).take(15)).collect();
+            p.log_last = 0;
+            p.log_blowup = 1;
+            p.n_friendly = 0;
+        }
+        "lastbound16" => {
+            p.log_trace = 17;
+            p.steps = vec![0, 1];
+            p.log_last = 16;
+            p.log_blowup = 1;
+            p.n_friendly = 0;
+        }
+        _ => {}
+    }
+    p
+}
+
 pub fn prove(params: &ToyParams, cheat: &Cheat) -> Result<Artifacts, String> {
+    let shaped;
+    let params = if let Cheat::BadShape { kind } = cheat {
+        shaped = bad_shape(params, kind);
+        &shaped
+    } else {
+        params
+    };
     let p = params;
     let mut rng = Rng::new(p.seed);
     let t = p.log_trace;
@@ -583,6 +639,9 @@ pub fn prove(params: &ToyParams, cheat: &Cheat) -> Result<Artifacts, String> {
         Cheat::Splice => {
             public_input.main_page.0[1].value += Felt::ONE;
             statement_unchanged = false;
+        }
+        Cheat::BadShape { .. } => {
+            params_sound = false;
         }
         Cheat::ColsSkew => {
             config_overrides.push(("config.traces.original.n_columns".into(), Felt::from(3u64)));
